@@ -60,6 +60,11 @@ pub fn program() -> Program {
         fact("wide", (1..=9).map(|i| T::Int(i)).collect()),
         rule("wide", (1..=9).map(|i| v(&format!("$W{}", i))).collect(), G::And(vec![call("q", vec![v("$W1")]), G::Unify(v("$W9"), v("$W1")), G::Unify(v("$W2"), atom("k"))])),
         fact("nest", vec![v("$A"), v("$B"), cplx("f", vec![v("$A"), v("$B"), cplx("g", vec![v("$B"), v("$A"), atom("z")])])]),
+        // a body-only variable in a later goal, after a goal whose second clause has variables of its own
+        rule("bo", vec![v("$X")], G::And(vec![call("bq", vec![v("$X")]), call("bc", vec![v("$B")])])),
+        fact("bq", vec![T::Int(1)]),
+        rule("bq", vec![v("$Y")], G::Unify(v("$Y"), T::Int(7))),
+        fact("bc", vec![atom("k")]),
         // sl: three quick answers, then a search far longer than the limit
         rule("sl", vec![v("$X")], call("q", vec![v("$X")])),
         rule("sl", vec![v("$X")], call("slow", vec![v("$X")])),
@@ -93,6 +98,7 @@ pub fn queries() -> Vec<(T, bool)> {
         (cplx("two", vec![atom("b"), v("$W")]), false),
         (cplx("wide", (1..=9).map(|i| v(&format!("$Q{}", i))).collect()), false),
         (cplx("nest", vec![v("$A"), atom("b"), cplx("f", vec![v("$C"), v("$D"), cplx("g", vec![v("$E"), v("$F"), v("$G")])])]), false),
+        (cplx("bo", vec![v("$Z")]), false),
         (cplx("sl", vec![v("$Z")]), true),
     ]
 }
@@ -332,6 +338,69 @@ pub fn sess_from_json(v: &Value) -> Vec<Sess> {
         .unwrap_or_default()
 }
 
+/// Set by the worker (and by replay) before forking: run the two sessions of the history alternately.
+pub static INTERLEAVED: std::sync::atomic::AtomicBool = std::sync::atomic::AtomicBool::new(false);
+
+/// Two sessions whose queries are both constructed first and then stepped alternately (A, B, A,
+/// B, ...) with next_solution or solve: each must still give its own answer sequence.
+fn child_interleaved(w: &mut Worker, a: &Sess, b: &Sess) -> Value {
+    let kb = build_kb(&program());
+    let _ = w.cap.take();
+    let sb = build_session(&kb, b);
+    let sa = build_session(&kb, a);
+    let sess = [(a, sa), (b, sb)];
+    let mut obs: [Vec<String>; 2] = [vec![], vec![]];
+    let mut ends = [0usize; 2];
+    let mut calls = 0u64;
+    let mut starved = false;
+    let limit = |m: Mode| if m == Mode::Solve { 2 } else { 3 };
+    while (0..2).any(|i| ends[i] < limit(sess[i].0.mode) && obs[i].len() < 40) {
+        for i in 0..2 {
+            let (s, (goal, sn)) = (&sess[i].0, &sess[i].1);
+            if ends[i] >= limit(s.mode) || obs[i].len() >= 40 {
+                continue;
+            }
+            calls += 1;
+            if s.mode == Mode::Solve {
+                let r = suiron::solve(Rc::clone(sn));
+                if r.starts_with("Query timed out") {
+                    starved = true;
+                    ends[i] = 99;
+                }
+                if r == "No more." {
+                    ends[i] += 1;
+                }
+                obs[i].push(r);
+            } else {
+                match suiron::next_solution(Rc::clone(sn)) {
+                    Some(ss) => obs[i].push(decode(&goal.replace_variables(&ss)).text_ids()),
+                    None => {
+                        ends[i] += 1;
+                        obs[i].push("None".into());
+                    }
+                }
+            }
+        }
+    }
+    let _ = w.cap.take();
+    let mut viols = vec![];
+    if !starved {
+        for i in 0..2 {
+            let s = sess[i].0;
+            let want: Vec<String> = expected(s).0.iter().map(|x| norm_ids(x)).collect();
+            let got: Vec<String> = obs[i].iter().map(|x| norm_ids(x)).collect();
+            if got != want {
+                let class = format!("interleaved:{}:{:?}", queries()[s.q].0.text().split('(').next().unwrap_or(""), s.mode);
+                viols.push(json!({"prop": "C22", "class": class, "msg": format!("{} stepped alternately with {} (both constructed first): observed {:?}; on its own the query gives {:?}", sess_text(s), sess_text(sess[1 - i].0), got, want)}));
+            }
+        }
+    }
+    for (_, (_, sn)) in sess.iter() {
+        dismantle(sn);
+    }
+    json!({"viols": viols, "states": [], "calls": calls, "sessions": 2, "starved": starved})
+}
+
 /// Executed in the forked child: run the history, return the report.
 fn child_body(w: &mut Worker, hist: &[Sess], prop: &str, prebuild: bool) -> Value {
     let kb = build_kb(&program());
@@ -436,7 +505,7 @@ pub fn run_history_forked(w: &mut Worker, hist: &[Sess], prop: &str, limit_s: u6
             libc::close(fds[0]);
             // the capture file is shared with the parent and earlier children: start clean
             w.cap.reset();
-            let rep = child_body(w, hist, prop, prebuild).to_string();
+            let rep = if INTERLEAVED.load(std::sync::atomic::Ordering::Relaxed) && hist.len() == 2 { child_interleaved(w, &hist[0], &hist[1]) } else { child_body(w, hist, prop, prebuild) }.to_string();
             let bytes = rep.as_bytes();
             let mut off = 0;
             while off < bytes.len() {
@@ -613,7 +682,17 @@ pub fn worker(prop: &str, tier: &str) {
         let slow = h.iter().filter(|s| is_slow(s)).count() as u64;
         // every history of two or more sessions runs twice: queries constructed one by one, and all
         // queries constructed up front (a node prepared before an earlier query ran)
-        for prebuild in [false, true] {
+        for variant in 0..3 {
+        let prebuild = variant == 1;
+        let interleaved = variant == 2;
+        // third variant: the two sessions of a history of length two stepped alternately
+        if interleaved && !(h.len() == 2 && slow == 0 && h.iter().all(|s| matches!(s.mode, Mode::NextAll | Mode::Solve))) {
+            continue;
+        }
+        INTERLEAVED.store(interleaved, std::sync::atomic::Ordering::Relaxed);
+        if interleaved {
+            w.count("histories.interleaved_variant", 1);
+        }
         // quick: the up-front variant of a history with a timed-out session only when that session comes
         // first (it is the later sessions that a stale flag or timer can hurt)
         if prebuild && (h.len() < 2 || h.len() > 8 || (slow > 0 && tier != "thorough" && (h.len() > 2 || !is_slow(&h[0])))) {
@@ -658,7 +737,7 @@ pub fn worker(prop: &str, tier: &str) {
                         w.count(&format!("viol.{}", p), 1);
                         let n = emitted.entry(format!("{}{}", p, class)).or_insert(0);
                         *n += 1;
-                        let wit = if *n <= 2 { json!({"engine":"sessions","history":sess_json(&h),"prebuilt":prebuild,"text":hist_text(&h)}) } else { Value::Null };
+                        let wit = if *n <= 2 { json!({"engine":"sessions","history":sess_json(&h),"prebuilt":prebuild,"interleaved":interleaved,"text":hist_text(&h)}) } else { Value::Null };
                         w.emit(json!({"t":"viol","prop":p,"class":class,"kind":class.split(':').next().unwrap_or(""),"msg":v["msg"],"witness":wit}));
                     }
                 }
@@ -670,7 +749,7 @@ pub fn worker(prop: &str, tier: &str) {
             Err(e) => {
                 let kind = if e.starts_with("HANG") { "hang" } else { "crash" };
                 w.count(&format!("viol.{}", prop), 1);
-                w.emit(json!({"t":"viol","prop":prop,"class":format!("{}:history", kind),"kind":kind,"msg":format!("{} — history {:?}", e, hist_text(&h)),"witness":{"engine":"sessions","history":sess_json(&h),"prebuilt":prebuild}}));
+                w.emit(json!({"t":"viol","prop":prop,"class":format!("{}:history", kind),"kind":kind,"msg":format!("{} — history {:?}", e, hist_text(&h)),"witness":{"engine":"sessions","history":sess_json(&h),"prebuilt":prebuild,"interleaved":interleaved}}));
             }
         }
         }
@@ -738,6 +817,7 @@ pub fn replay(wit: &Value) -> bool {
     println!("history: {:?}", hist_text(&h));
     let mut w = Worker::from_env();
     let mut reports = vec![];
+    INTERLEAVED.store(wit["interleaved"].as_bool().unwrap_or(false), std::sync::atomic::Ordering::Relaxed);
     for round in 0..2 {
         match run_history_forked(&mut w, &h, "C22", 60, wit["prebuilt"].as_bool().unwrap_or(false)) {
             Ok(rep) => {
